@@ -408,6 +408,39 @@ def purge_props(E, res, f, removed_key):
     return P
 
 
+def run_add_signer_many(E):
+    """add_signer on a wallet whose signer list is large: an unexamined list of n signers (n symbolic, 1..256)"""
+    from mirsym.models_core import BigVecV
+    rt, rtref = new_rt(E)
+    ST, TX = _fields()
+    n = z3.Int('signer_count')
+    E.ctx.assume(z3.And(n >= 1, n <= 256))          # wallet invariant
+    st = StructV('State', {ST['signers']: BigVecV('signers', n, (), 'Vec<Address>')}, lazy='st')
+    thr = fget(E, st, ST['num_approvals_threshold'], 'u64').v
+    E.ctx.assume(z3.And(thr >= 1, thr <= n))
+    rt.state = st
+    E.ctx.env.update(dict(n=n, thr=thr))
+    params = LazyV('params', 'types::AddSignerParams')
+    E.ctx.env['params'] = params
+    return E.run_function(find_fn(E, MS, 'add_signer'), [rtref, params]), rt
+
+
+def props_add_signer_many(E, res):
+    from mirsym.models_core import BigVecV
+    env = res.ctx.env
+    rt = env['rt']
+    if res.kind != 'return':
+        return [('no panic (%s)' % str(res.info)[:60], False)]
+    if is_err(res.value):
+        return [('rejected admin call commits nothing', rt.commits == 0)]
+    ST, TX = _fields()
+    sg = E.deref(fget(E, rt.state, ST['signers'], 'Vec<Address>'))
+    thr1 = fget(E, rt.state, ST['num_approvals_threshold'], 'u64').v
+    n1 = sg.hidden + len(sg.items) if isinstance(sg, BigVecV) else None
+    return [('the signer list never grows beyond 256 (1 <= threshold <= signers <= 256)', z3.And(n1 == env['n'] + 1, n1 <= 256, thr1 >= 1, thr1 <= n1) if n1 is not None else False),
+            ('admin methods only through the wallet itself', addr_eq(rt.caller, rt.receiver))]
+
+
 def props_add_signer(E, res):
     f, P = admin_common(E, res)
     if f is None:
@@ -595,6 +628,8 @@ def build(tier):
                             bounds='%d signers; one call' % n, max_paths=60000))
     pend_q = [[], [1], [2, 1]]
     pend_t = [[], [1], [2], [2, 1], [3, 2]]
+    O.append(Obligation('multisig.add_signer[signers=symbolic count up to 256]', run_add_signer_many, props_add_signer_many,
+                        descr='add_signer at the size limit: a wallet with 256 signers cannot grow; below the limit it grows by one', bounds='signer list of symbolic length 1..256 (elements unexamined: membership by an uninterpreted predicate)', max_paths=2000))
     O.append(Obligation('multisig.add_signer[signers=2]', run_admin('add_signer', 'AddSignerParams', 2, []), props_add_signer, scenario=make_scenario('AddSigner'),
                         descr='add_signer: only self; new distinct signer appended; threshold+1 iff requested; Inv', bounds='2 signers', max_paths=20000))
     for pend in (pend_q if tier == 'quick' else pend_t):
